@@ -306,6 +306,9 @@ def _graph_cases(run, world):
     # parsing: well-formed texts (x-runs share one list), mutated texts (refused, some part-way through a row)
     texts = list(tps_texts) + ["x3/x3/x3 1 1", "x5/x5/x5/x5/x5 2 1", "x,1,x/x3/2,x2 1 2", "1,x,x/x2,21S/x,2C,x 2 3"]
     alphabet = "12SCx,/ 345"
+    # a move number int() refuses to convert (exercises the try/except of parse_tps, when there is one)
+    for t in ("x3/x3/x3 1 " + "1" * 4400, "x3/x2,1/x3 2 " + "7" * 5000):
+        one("parse_tps", HeapEnc(), [-1], tps.parse_tps, (t,), {"tps": t[:40] + "...(%d digits)" % (len(t) - 12)})
     for t in list(texts):
         for _ in range(2):
             i = rng.randrange(len(t))
@@ -327,6 +330,11 @@ def _run_graph(run):
         run.oblige("correspondence:heap-graph", False, "the translator could not read class Position")
         return
     t0 = time.time()
+    with core.BuildLock():       # model/HeapObs.vo is not a dependency of props/C05.vo: build it (and gen/HeapIR.vo) here
+        okm, mlog, _ = core.coq_make(MODEL_TARGETS)
+    if not okm:
+        run.oblige("build:model (HeapSem, HeapObs, gen/HeapIR)", False, mlog[-1500:])
+        return
     fams, stats, dist, nontrivial, samples, frame_violations = _graph_cases(run, world)
     for fv in frame_violations[:5]:
         key = "frame-" + hashlib.sha256(json.dumps(fv["input"], sort_keys=True).encode()).hexdigest()[:10]
